@@ -777,7 +777,7 @@ def run(ctx):
     allspecs = MANDATORY + extra
     for s in allspecs:
         spec_flags(s)
-    n_main, n_wrap = ctx.pick(32, 64), ctx.pick(10, 16)
+    n_main, n_wrap = ctx.pick(32, 48), ctx.pick(10, 16)
     cases = []
     n_types = 0
     # (1) exhaustive skip subsets
@@ -786,7 +786,7 @@ def run(ctx):
         cases.append(make_case("k%d" % (i // 4), sk[i:i + 4], rng, allspecs, n_main, n_wrap, 1))
         n_types += len(sk[i:i + 4])
     # (2) random groups of 1..3 types, later ones nesting earlier ones
-    target = ctx.pick(1200, 24000)
+    target = ctx.pick(1200, 12000)
     i = 0
     while n_types < target:
         nt = rng.choice((1, 2, 3, 3))
